@@ -301,6 +301,16 @@ class World:
             return t
         raise HarnessError("unknown segment kind")
 
+    def _twin_with_flag(self, prec):
+        """fresh path of the current segments carrying the same (deprecated) closed flag"""
+        t = self.twin_path(prec)
+        if getattr(prec.obj, "_closed", False):
+            try:
+                t.closed = True
+            except ValueError:
+                pass
+        return t
+
     def twin_path(self, prec):
         memo = {}
         segs = []
@@ -1088,6 +1098,19 @@ class World:
             oc = self.impl(lambda: getattr(o, q)(t))
             tw = outcome(lambda: getattr(self.twin_seg(rec), q)(t))
             self.compare(idx, "point", oc, tw, False)
+        elif q == "points":
+            ts = [0.0, 0.25, 0.5, 1.0]
+            if rec.kind == "A":
+                return "skipped"
+            oc = self.impl(lambda: [complex(z) for z in o.points(ts)])
+            tw = outcome(lambda: [complex(z) for z in self.twin_seg(rec).points(ts)])
+            self.compare(idx, "point", oc, tw, False)
+        elif q == "length_rev":
+            oc = self.impl(lambda: o.length(1, 0))
+            tw = outcome(lambda: self.twin_seg(rec).length(1, 0))
+            if rec.kind == "A":
+                return "skipped"
+            self.compare(idx, "length_t", oc, tw, tolerant, atol=self._seg_atol(rec) if tolerant else 0.0)
         elif q == "poly":
             oc = self.impl(lambda: [complex(c) for c in o.poly(return_coeffs=True)])
             tw = outcome(lambda: [complex(c) for c in self.twin_seg(rec).poly(return_coeffs=True)])
@@ -1337,6 +1360,48 @@ class World:
                 #  length makes the default-tolerance value a legitimate cached answer later)
                 self._mark_path_tols(pr, *DEFAULT_TOL)
                 warmed = Tv not in (0, 1)
+        elif q in ("curvature", "normal"):
+            Tv = op["T"]
+            oc = self.impl(lambda: getattr(p, q)(Tv))
+            tw = outcome(lambda: getattr(T(), q)(Tv))
+            if tolerant and self._near_boundary(pr, Tv):
+                self.probe("inconclusive_boundary_query_on_rounding_tainted_path")
+            else:
+                self.compare(idx, "point", oc, tw, tolerant, rtol=1e-6, atol=1e-9 if tolerant else 0.0)
+            if oc[0] != "i":
+                self._mark_path_tols(pr, *DEFAULT_TOL)
+                warmed = Tv not in (0, 1)
+        elif q in ("closed", "isclosedac"):
+            oc = self.impl(lambda: (p.closed if q == "closed" else p.isclosedac()))
+            tw = outcome(lambda: (self._twin_with_flag(pr).closed if q == "closed" else T().isclosedac()))
+            self.compare(idx, "isclosed", oc, tw, False)
+        elif q == "membership":
+            if not self._have(s=[op["s"]]):
+                return "skipped"
+            target = self._obj(op["s"])
+
+            def ask(path):
+                out = [target in path, path.count(target)]
+                try:
+                    out.append(path.index(target))
+                except ValueError:
+                    out.append("ValueError")
+                return out
+            oc = self.impl(lambda: ask(p))
+            tw = outcome(lambda: ask(Path(*[self._obj(sid) for sid in pr.model])))
+            self.compare(idx, "seq", oc, tw, False)
+        elif q == "radialrange":
+            z = cz(op["z"])
+            if has_arc:
+                return "skipped"
+            oc = self.impl(lambda: p.radialrange(z))
+            tw = outcome(lambda: T().radialrange(z))
+            if tolerant:
+                self.probe("inconclusive_boundary_query_on_rounding_tainted_path")
+            else:
+                self.compare(idx, "point", oc, tw, False)
+            if oc[0] != "i":
+                self._mark_path_tols(pr, *DEFAULT_TOL)
         elif q == "iscontinuous":
             oc = self.impl(lambda: p.iscontinuous())
             tw = outcome(lambda: T().iscontinuous())
@@ -1495,9 +1560,10 @@ PATH_MUT = ["setitem", "setslice", "insert", "append", "extend", "extend_self", 
             "delslice", "pop", "remove", "reverse", "clear", "set_start", "set_end"]
 PATH_Q = ["length", "length_T", "length_tol", "length_fail", "point", "T2t", "t2T", "ilength",
           "cropped", "start", "end", "bbox", "d", "iscontinuous", "isclosed", "len", "repr", "eq",
-          "eq_twin", "derivative", "unit_tangent"]
+          "eq_twin", "derivative", "unit_tangent", "curvature", "normal", "closed", "isclosedac",
+          "membership", "radialrange"]
 SEG_Q = ["length", "length_tol", "length_fail", "length_t", "point", "bbox", "ilength", "repr", "eq",
-         "derivative", "unit_tangent", "poly"]
+         "derivative", "unit_tangent", "poly", "points", "length_rev"]
 CREATE = ["new_seg", "dup_seg", "new_path", "seg_reversed", "seg_copy", "path_reversed", "path_slice",
           "path_subpaths", "path_reparse", "path_deepcopy", "path_pickle"]
 
@@ -1557,6 +1623,8 @@ class Gen:
         f = self.family
         if f == "int":
             v = r.randint(-4, 4)
+            if v == 0 and r.random() < 0.3:
+                v = -0.0
         elif f == "half":
             v = r.randint(-8, 8) / 2.0
         else:
@@ -1792,8 +1860,13 @@ class Gen:
         elif q == "length_fail":
             if self.quad and a.random() < 0.7:
                 op["q"] = "length"
-        elif q in ("point", "T2t", "derivative", "unit_tangent"):
+        elif q in ("point", "T2t", "derivative", "unit_tangent", "curvature", "normal"):
             op["T"] = self.Tval(a, w, pr)
+        elif q == "membership":
+            pool = pr.model if (pr.model and a.random() < 0.7) else sorted(w.segs)
+            op["s"] = a.choice(pool)
+        elif q == "radialrange":
+            op["z"] = zc(self.pt(a))
         elif q == "t2T":
             op["k"], op["t"] = self.idx(a, n), a.choice([0, 1, 0.5, a.random()])
         elif q == "ilength":
